@@ -205,8 +205,8 @@ theorem mkArray_content {s s' : Mgr} (hs : Inv s) {addr : Nid → Nat} {it : Ty}
     s'.content? i = some ⟨NT.ARRAY_VALUE, d :: flattenPairs (arrayAssignments addr d assign), .ty it⟩ := by
   simp only [mkArray, Prog.run] at h
   split at h
-  · exact (create_content hs h).1
   · simp [Prog.run] at h
+  · exact (create_content hs h).1
 
 /-- **`array_value_get` on a node built by `Array`** is lookup in the given assignments
     (those not equal to the default), else the default — for distinct index objects. -/
